@@ -252,6 +252,7 @@ func C06(c *hx.Ctx) {
 	c.Rule = "contract matrix: every (SizeInHeader, Size, EOSMarker) x every history of <= 3/4 writes + Close over boundary lengths, generated by TLC from LzmaAlone with the predicted result of each call, header size field and marker mode, replayed on lzma.Writer; round-trip matrix: all 225 property codes x both matchers x {4096, 1 MiB} x data classes; sink judged by header parse, reference decoder and lzma.Reader; recorded runs validated by TLC (TraceLzmaAlone); non-trivial = explicit size or non-default properties"
 	c.Assumptions = []string{"TLC (LzmaAlone)", "internal/ref .lzma decoder"}
 	c.DesignCheck(tlc.Opts{Module: "LzmaAloneMC", Cfg: "LzmaAlone_mc.cfg", Timeout: 3 * time.Minute}, []string{"Write", "Close"})
+	configTable(c, "lzma")
 	cases := genAloneCases(c, "{-1, 0, 1, 2, 5, 300}", c.PickS("{0, 1, 2, 4, 5, 299, 300, 301}", "{0, 1, 2, 3, 4, 5, 6, 299, 300, 301, 600}"), c.Pick(3, 4))
 	if len(cases) == 0 {
 		return
